@@ -764,6 +764,25 @@ def json_key(x):
     raise Unspecified("non-JSON datum")
 
 
+_STRICTER = {"min": max, "exc_min": max, "min_len": max, "min_items": max, "min_props": max,
+             "max": min, "exc_max": min, "max_len": min, "max_items": min, "max_props": min, "unique": lambda a, b: a or b}
+
+
+def merge_cons(a, b):
+    """conjunction of two constraint sets as one set (None when it cannot be expressed: two patterns)"""
+    out = dict(a)
+    for k, v in b.items():
+        if k not in out:
+            out[k] = v
+        elif k in _STRICTER:
+            out[k] = _STRICTER[k](out[k], v)
+        elif k == "mult_of" and isinstance(v, int) and isinstance(out[k], int):
+            out[k] = out[k] * v // math.gcd(out[k], v)
+        elif out[k] != v:
+            return None
+    return out
+
+
 @dataclass
 class Ann(T):
     """Annotated[t, schema(**cons)]"""
@@ -787,6 +806,13 @@ class Ann(T):
 
     def deser(self, d, cx):
         base = strip(self.t)
+        if isinstance(self.t, Ann) and not isinstance(base, Union_):
+            # constraints given at two levels (nested Annotated, per-call schema= over an annotated type) all apply: one
+            # merged constraint set where the stricter bound wins
+            m = merge_cons(self.t.cons, self.cons)
+            if m is None:
+                raise Unspecified("unmergeable constraints (two patterns)")
+            return Ann(self.t.t, m).deser(d, cx)
         if isinstance(base, Union_):
             # constraints on a union apply to each alternative (by the JSON type of the datum); every alternative reports its own errors
             return Union_([Ann(a, self.cons) for a in flat_alts(base)]).deser(d, cx)
